@@ -109,6 +109,11 @@ structure PS where
   /-- `accessory_handler.srp_verifier` -/
   verifier : Option Server
 
+/-- The identifier the accessory ADVERTISES: `AccessoryMDNSServiceInfo._get_advert_data()["id"]`, which
+    is `state.mac` verbatim — the very bytes `_pairing_five` signs and sends as USERNAME in M6.  (The
+    correspondence run reads it from the real advertisement, not from `state.mac`.) -/
+def advertisedId (ps : PS) : Bytes := ps.mac
+
 /-- one `POST /pair-setup` -/
 structure Req where
   body : Bytes
